@@ -383,7 +383,7 @@ PROPS["C14"] = {
 
 PROPS["C01"] = {
     "lean_modules": ["AvroModel.Props.C01"],
-    "required_theorems": ["record_roundtrip", "record_exact", "two_records", "blocks_partition", "flush_leaves_nothing", "file_roundtrip"],
+    "required_theorems": ["record_roundtrip", "record_exact", "two_records", "blocks_partition", "flush_leaves_nothing", "file_roundtrip", "value_roundtrip", "value_roundtrip_exact", "value_roundtrip_spec", "norm_idempotent"],
     "harness": [("E2E", "C01")],
     "level_text": "Proof by layers: record_roundtrip (Codec.Read of what Codec.Write appended, followed by anything, delivers the written "
                   "datum's value and the exact rest - write correctness composed with read correctness, for every codec tree, value and budget), "
